@@ -89,6 +89,8 @@ type c03gen struct {
 	chunks int
 	nested int // chunks separated by a construct inside a nested body
 	macros []string
+	// names of blocks whose definition is complete (block() on them cannot recurse)
+	doneBlocks []string
 	pre    []gen.Node // macro definitions hoisted to the top of the template
 }
 
@@ -101,6 +103,9 @@ func (g *c03gen) text(path string) gen.Node {
 	g.sig = append(g.sig, path+":"+cls)
 	return &gen.NText{S: s, ID: g.id()}
 }
+
+// c03KeywordVars are legal variable names that are also tag names.
+var c03KeywordVars = []string{"verbatim", "endverbatim", "raw", "if", "endif", "for", "block", "endblock", "set", "macro", "include", "extends", "filter", "embed", "use", "import", "from", "do", "else"}
 
 var c03Verbatims = []string{
 	"{{ raw }}", "{% if x %}a{% endif %}", "{# not a comment #}", "{{ 'unclosed", "{%", "{{", "}} %} #}", "{% endverb %}", "{% for i in x %}{{ i }}{% endfor %}",
@@ -120,13 +125,27 @@ func (g *c03gen) body(depth int, path string) []gen.Node {
 
 func (g *c03gen) node(depth int, path string) gen.Node {
 	r := g.r
-	k := r.Intn(16)
-	if depth <= 0 && k > 6 {
+	k := r.Intn(18)
+	if depth <= 0 && k > 6 && k < 15 {
 		k = r.Intn(7)
 	}
 	switch k {
 	case 0, 1, 2:
 		return g.text(path)
+	case 15:
+		// a variable that is called like a tag keyword is still just a variable (not read inside macro bodies:
+		// what a macro body sees of the caller's variables is not part of any claim)
+		if strings.Contains(path, "/macro") {
+			return g.text(path)
+		}
+		return &gen.NPrint{X: &gen.EName{Name: c03KeywordVars[r.Intn(len(c03KeywordVars))]}, ID: g.id()}
+	case 16:
+		// an already complete block rendered again through block(): its text must come out again, byte for byte
+		if len(g.doneBlocks) == 0 || strings.Contains(path, "/macro") {
+			return g.text(path)
+		}
+		g.sig = append(g.sig, path+":blockfn")
+		return &gen.NPrint{X: &gen.EBlockFn{Name: &gen.EStr{S: g.doneBlocks[r.Intn(len(g.doneBlocks))]}}, ID: g.id()}
 	case 3:
 		lits := []gen.Expr{&gen.EStr{S: "lit"}, &gen.ENum{Text: "7"}, &gen.EStr{S: "é}"}, &gen.EStr{S: ""}, &gen.EBool{V: true}, &gen.ENull{}, &gen.EStr{S: "a b"}}
 		return &gen.NPrint{X: lits[r.Intn(len(lits))], ID: g.id()}
@@ -166,7 +185,12 @@ func (g *c03gen) node(depth int, path string) gen.Node {
 		}
 		return n
 	case 11:
-		return &gen.NBlock{Name: "b" + g.id(), Body: g.body(depth-1, path+"/block"), ID: g.id()}
+		if strings.Contains(path, "/macro") {
+			return g.text(path)
+		}
+		b := &gen.NBlock{Name: "b" + g.id(), Body: g.body(depth-1, path+"/block"), ID: g.id()}
+		g.doneBlocks = append(g.doneBlocks, b.Name)
+		return b
 	case 12:
 		name := "c" + g.id()
 		// capture then print: the captured bytes must reappear exactly
@@ -216,7 +240,11 @@ func (p *c03) build(i int) (*Program, *c03gen) {
 		merged = append(merged, n)
 	}
 	t := &gen.Template{Name: "main", Body: merged}
-	return &Program{Templates: map[string]*gen.Template{"main": t}, Main: "main", Ctx: map[string]interface{}{}}, g
+	ctx := map[string]interface{}{}
+	for _, kw := range c03KeywordVars {
+		ctx[kw] = "<" + kw + ">"
+	}
+	return &Program{Templates: map[string]*gen.Template{"main": t}, Main: "main", Ctx: ctx}, g
 }
 
 func (p *c03) Describe(i int) interface{} {
@@ -262,7 +290,7 @@ func (p *c03) Run(i int) (res fw.Result) {
 }
 
 func (p *c03) Rule() string {
-	return "cases: seeded structure trees whose leaves are mostly literal chunks (ASCII, 2/3/4-byte UTF-8, LF/CRLF/TAB, lone { } % #, closing delimiters }} %} #} -}} , quotes, U+2028, DEL; never forming an opening delimiter; a lone { also as the very last byte of the template) interleaved with prints of literals, comments (multi-line, containing {{ / {% / #), verbatim bodies (containing prints, tags, comments, unclosed quotes, lone delimiters, a nested verbatim opener) and nested inside if/elseif/else, for/else, block, set-capture (printed afterwards), filter sections (bracket filters) and macro bodies to depth 4; every 10th case is a delimiter-free text that must render to itself; odd cases are spelled without blanks inside delimiters ({%if x%}), even cases canonically. Oracle: byte-exact equality with the reference model's output. Non-trivial = >=2 chunks inside nested bodies (or a delimiter-free text); distinct = construct path and alphabet class of every chunk."
+	return "cases: seeded structure trees whose leaves are mostly literal chunks (ASCII, 2/3/4-byte UTF-8, LF/CRLF/TAB, lone { } % #, closing delimiters }} %} #} -}} , quotes, U+2028, DEL; never forming an opening delimiter; a lone { also as the very last byte of the template) interleaved with prints of literals, prints of variables named like tag keywords (verbatim, endverbatim, if, block, ...), block() calls on completed blocks, comments (multi-line, containing {{ / {% / #), verbatim bodies (containing prints, tags, comments, unclosed quotes, lone delimiters, a nested verbatim opener) and nested inside if/elseif/else, for/else, block, set-capture (printed afterwards), filter sections (bracket filters) and macro bodies to depth 4; every 10th case is a delimiter-free text that must render to itself; odd cases are spelled without blanks inside delimiters ({%if x%}), even cases canonically. Oracle: byte-exact equality with the reference model's output. Non-trivial = >=2 chunks inside nested bodies (or a delimiter-free text); distinct = construct path and alphabet class of every chunk."
 }
 
 func (p *c03) Assumptions() []string {
